@@ -225,7 +225,9 @@ Inductive c17case :=
 | K17 (srv : server) (ckeys : list (N * N)) (t : tables) (steps : list c17step)
 (* the real state machine (oneshot_check) against the in-process server:
    configured kind / forced ETag / CUP, and the observed result class *)
-| KSm (kind : omaha_response) (forced_etag cup : bool) (result : N).
+| KSm (kind : omaha_response) (forced_etag cup : bool) (result : N)
+(* the same, twice, with a reconfiguration (POST /set_responses_by_appid) to kind2 in between *)
+| KSmRe (kind1 kind2 : omaha_response) (cup : bool) (result1 result2 : N).
 
 Definition obs_matches (o : outcome) (obs : c17obs) : bool :=
   match o, obs with
@@ -291,6 +293,7 @@ Definition check_omaha (t : tables) (ckeys : list (N * N)) (all : list c17step) 
                       (* property: the server holds the key of a pair the client holds under the same id and
                          nothing forces the ETag => accepted; no such key on the server => no ETag, refused *)
                       if negb (st =? 200) then 0 else       (* status 500: nothing is configured, nothing is promised *)
+                      if negb (is_none (find_cup2key (o_base o))) then 0 else   (* the service URL has a cup2key of its own *)
                       match find_key (s_keys s) id, s_etag_override s with
                       | Some sk, None =>
                           (* key handles are the harness's key-pair numbers on both sides:
@@ -370,6 +373,8 @@ Definition check_c17 (c : c17case) : N :=
   match c with
   | K17 srv ckeys t steps => check_steps t ckeys steps srv steps
   | KSm kind forced cup result => if result =? expected_sm_result kind forced cup then 0 else 2
+  | KSmRe k1 k2 cup r1 r2 =>
+      if (r1 =? expected_sm_result k1 false cup) && (r2 =? expected_sm_result k2 false cup) then 0 else 2
   end.
 
 Definition run_c17 (cases : list (N * c17case)) : list (N * N) :=
